@@ -373,7 +373,7 @@ func converged(c *Cluster) string {
 		if pr.Match < last {
 			return fmt.Sprintf("leader's match for %d is %d < %d", pid, pr.Match, last)
 		}
-		if pr.State != tracker.StateReplicate {
+		if pr.State != tracker.StateReplicate && pid != leader {
 			return fmt.Sprintf("leader's progress for %d is %s", pid, pr.State)
 		}
 	}
